@@ -2,7 +2,7 @@
 
 E2: breadth-first search over sequences of annotate invocations.  A state is
 (tree bytes, running model of what the file must declare); a transition runs
-one real `reuse annotate` from a 12-command menu; states are de-duplicated on
+one real `reuse annotate` from a 15-command menu; states are de-duplicated on
 bytes + model.  After every transition the information read back must equal
 old U requested (semantically for --merge-copyrights).  A violation is replayed
 from the initial state without the explorer (evaluate(case)).
@@ -37,6 +37,8 @@ MENU = {
     # commands that the tool has to refuse (or carry out completely): nothing may be lost either way
     "tpl-drops-licences": ["--license", "Unlicense", "--copyright", "Fay F", "--exclude-year", "--template", "nolicence"],
     "hostile-holder": ["--copyright", "Eve :) -->", "--exclude-year"],
+    # the file is named explicitly although --recursive is given (an explicitly named file is taken as it is, covered or not)
+    "recursive-named": ["--copyright", "Gil G", "--exclude-year", "--recursive"],
 }
 REQ = {  # what each command requests: (copyright lines, expressions, contributors)
     "holderA": (["SPDX-FileCopyrightText: 2020 Alice A"], [], []),
@@ -53,6 +55,7 @@ REQ = {  # what each command requests: (copyright lines, expressions, contributo
     "tpl-nocontrib": ([], ["0BSD"], []),
     "tpl-drops-licences": (["SPDX-FileCopyrightText: Fay F"], ["Unlicense"], []),
     "hostile-holder": (["SPDX-FileCopyrightText: Eve :) -->"], [], []),
+    "recursive-named": (["SPDX-FileCopyrightText: Gil G"], [], []),
 }
 STYLES = {"python": "f.py", "c": "f.c", "html": "f.html", "cpp": "f.cpp"}
 COMMENT = {
@@ -279,7 +282,7 @@ def run(tier, seed):
 
     return finish(
         ID, "model_checking", MODULE, tier, seed, st, t0,
-        rule=("BFS over annotate command sequences (12-command menu) up to the depth bound from 5 initial files x 4 styles; states de-duplicated on "
+        rule=("BFS over annotate command sequences (15-command menu) up to the depth bound from 6 initial files x 4 styles; states de-duplicated on "
               "(tree bytes, running model); every transition executes the real command and the read-back (lint --json + the tool's reader for "
               "contributors) must equal old U requested (semantically for --merge-copyrights); non-trivial = state reached by a successful run"),
         bounds=bounds(tier, seed),
